@@ -1,3 +1,137 @@
+import Mhd.Model.FramingRef
 import Driver.Common
-/- stub: replaced by the builder of this engine -/
-def main : IO Unit := Driver.runEngine () (fun s _ => (s, ["bad-op"]))
+open Mhd.Framing Driver
+
+/-!
+  Engine `frame` (C03).  One output line per input line.
+
+  run <lvl> <behs|-> <seghex>…      whole connection: events of `runSegs`
+  ref <seghex>                       the Lean reference framer on a stream
+  decide <lvl> <0|1> <namehex:valuehex>…   `decideBody`
+  chunk <lvl> <cur> <off> <bufhex>   one `chunkAct`
+  chunkrun <lvl> <cur> <off> <bufhex>   the whole loop of `process_request_body` (chunked, handler takes all)
+  token <valuehex> <tokenhex>        `hasToken`
+-/
+
+def parseInt (s : String) : Option Int :=
+  if s.startsWith "-" then (s.drop 1).toNat?.map (fun n => - (Int.ofNat n)) else s.toNat?.map Int.ofNat
+
+def parseBeh (s : String) : Option Beh :=
+  if s == "a" then some .abort else
+  let k := s.take 1
+  match (s.drop 1).toNat? with
+  | none => none
+  | some st =>
+    if st < 200 ∨ 599 < st then none else
+    if k == "c" then some (.cont st false)
+    else if k == "k" then some (.cont st true)
+    else if k == "e" then some (.early st false)
+    else if k == "f" then some (.early st true)
+    else none
+
+def parseBehs (s : String) : Option (List Beh) :=
+  if s == "-" then some [] else (s.splitOn ",").mapM parseBeh
+
+def appOf (bs : List Beh) : App := fun n => bs.getD n (.cont 200 false)
+
+def showEv : Ev → String
+  | .first m t => s!"first:{hexOfBytes m}:{hexOfBytes t}"
+  | .upload d => s!"up:{hexOfBytes d}"
+  | .final => "final"
+  | .reply st ch => s!"reply:{st}:{if ch then 1 else 0}"
+  | .reqDone => "done"
+  | .close => "close"
+
+def showState : CState → String
+  | .init => "init" | .headersReceived => "headersReceived" | .headersProcessed => "headersProcessed"
+  | .bodyReceiving => "bodyReceiving" | .bodyReceived => "bodyReceived"
+  | .footersReceiving => "footersReceiving" | .footersReceived => "footersReceived"
+  | .fullReqReceived => "fullReqReceived" | .startReply => "startReply"
+  | .fullReplySent => "fullReplySent" | .closed => "closed" | .outOfDomain => "out-of-domain"
+
+def showSt (s : St) : String :=
+  let evs := " ".intercalate (s.out.reverse.map showEv)
+  s!"{evs} | state={showState s.state} buf={s.buf.length}"
+
+def showBody : Body → String
+  | .none => "none" | .len n => s!"len {n}" | .chunked mc => s!"chunked {if mc then 1 else 0}"
+  | .reject st => s!"reject {st}"
+
+def showAct : Act → String
+  | .needMore => "needmore" | .term n => s!"term {n}" | .data n => s!"data {n}"
+  | .line len size => s!"line {len} {size}" | .err st => s!"err {st}"
+
+def parseFieldArg (s : String) : Option Field :=
+  match s.splitOn ":" with
+  | [n, v] => match bytesOfHex n, bytesOfHex v with
+    | some nb, some vb => some ⟨nb, vb⟩
+    | _, _ => none
+  | _ => none
+
+def showFrame (f : Frame) : String :=
+  s!"frame:{hexOfBytes f.method}:{hexOfBytes f.target}:{hexOfBytes f.body}:{if f.persistent then 1 else 0}"
+
+def showRef (r : List Frame × RefEnd) : String :=
+  let fr := " ".intercalate (r.1.map showFrame)
+  let e := match r.2 with
+    | .incomplete n => s!"incomplete {n}" | .invalid => "invalid" | .closed => "closed" | .nonCanonical => "non-canonical"
+  s!"{fr} | {e}"
+
+/-- `process_request_body` called once on a chunked upload whose application takes everything -/
+def chunkRunFuel (lvl : Int) : Nat → St → St
+  | 0, s => s
+  | n + 1, s =>
+    if s.state = .bodyReceiving then
+      match bodyStep lvl s with
+      | none => s
+      | some s' => chunkRunFuel lvl n s'
+    else s
+
+def showChunkRun (s : St) : String :=
+  let up := s.out.foldr (fun e acc => match e with | .upload d => acc ++ d | _ => acc) []
+  match s.state with
+  | .bodyReceiving => s!"up={hexOfBytes up} cur={s.cur} off={s.off} left={s.buf.length} out=need"
+  | .bodyReceived => s!"up={hexOfBytes up} cur={s.cur} off={s.off} left={s.buf.length} out=last"
+  | .fullReplySent =>
+    match s.resp with
+    | some (st, _) => s!"up={hexOfBytes up} cur=- off=- left={s.buf.length} out=err:{st}"
+    | none => "fault no-response"
+  | _ => s!"up={hexOfBytes up} cur=- off=- left=- out=closed"
+
+def stepLine (u : Unit) (ws : List String) : Unit × List String :=
+  match ws with
+  | "run" :: lvl :: behs :: segs =>
+    match parseInt lvl, parseBehs behs, segs.mapM bytesOfHex with
+    | some l, some bs, some sg =>
+      if l < -3 ∨ 3 < l then (u, ["bad-op"]) else (u, [showSt (runSegs l (appOf bs) sg)])
+    | _, _, _ => (u, ["bad-op"])
+  | ["ref", lvl, seg] =>
+    match parseInt lvl, bytesOfHex seg with
+    | some l, some b => (u, [showRef (Framer.frames l b)])
+    | _, _ => (u, ["bad-op"])
+  | "decide" :: lvl :: v11 :: fs =>
+    match parseInt lvl, fs.mapM parseFieldArg with
+    | some l, some fl =>
+      if v11 == "0" ∨ v11 == "1" then (u, [showBody (decideBody l (v11 == "1") fl)]) else (u, ["bad-op"])
+    | _, _ => (u, ["bad-op"])
+  | ["chunk", lvl, cur, off, buf] =>
+    match parseInt lvl, cur.toNat?, off.toNat?, bytesOfHex buf with
+    | some l, some c, some o, some b =>
+      if o ≤ c ∧ c < 2 ^ 64 then (u, [showAct (chunkAct l c o b)]) else (u, ["bad-op"])
+    | _, _, _, _ => (u, ["bad-op"])
+  | ["chunkrun", lvl, cur, off, buf] =>
+    match parseInt lvl, cur.toNat?, off.toNat?, bytesOfHex buf with
+    | some l, some c, some o, some b =>
+      if o ≤ c ∧ c < 2 ^ 64 ∧ b ≠ [] ∧ -3 ≤ l ∧ l ≤ 3 then
+        let s0 : St := { state := .bodyReceiving, chunked := true, remaining := Mhd.Gen.Framing.sizeUnknown,
+                         cur := c, off := o, buf := b }
+        (u, [showChunkRun (chunkRunFuel l (b.length + 2) s0)])
+      else (u, ["bad-op"])
+    | _, _, _, _ => (u, ["bad-op"])
+  | ["token", v, t] =>
+    match bytesOfHex v, bytesOfHex t with
+    | some vb, some tb => (u, [if hasToken vb tb then "yes" else "no"])
+    | _, _ => (u, ["bad-op"])
+  | _ => (u, ["bad-op"])
+
+def main : IO Unit := Driver.runEngine () stepLine
